@@ -1,11 +1,772 @@
-//! (stub) binding for this area — see DESIGN.md
-use crate::util::Args;
-use anyhow::Result;
+//! Binding of spec/Queue.tla + spec/QueueAbs.tla to ragc_core::memory_bounded_queue (C06).
+//!
+//! Nothing here decides the property.  The module
+//!  * drives the real `MemoryBoundedQueue` from harness threads (`steer-queue`: one call at a
+//!    time in the order of a TLC-generated behaviour; `trace-queue`: free-running producers /
+//!    consumers with seeded perturbation inside the critical sections),
+//!  * projects: the cfg(ragc_verif) hook events (emitted under the queue mutex, so log order =
+//!    lock order) plus what every call returned to its caller are written as ndjson for
+//!    `Trace_Queue.tla`,
+//!  * compares, for deterministic behaviours, the model's projected post-state (answer class,
+//!    who is blocked, bag of queued items, bytes, closed) with the real one after every
+//!    settled step (REPLAY).
+//!
+//! "Settled / quiescent" is never inferred from elapsed time: a thread counts as blocked only
+//! if the kernel reports it sleeping (state S) inside an untimed futex wait and neither the
+//! event counter nor the result channel moved during two consecutive scans of all threads.
+use crate::util::{self, Args};
+use anyhow::{anyhow, bail, Result};
+use ragc_common::verif;
+use ragc_core::memory_bounded_queue::{MemoryBoundedQueue, PushError, TryPushError};
+use rand::rngs::StdRng;
+use rand::{Rng, SeedableRng};
+use serde_json::{json, Value};
+use std::cell::{Cell, RefCell};
+use std::collections::{BTreeMap, BTreeSet, HashMap};
+use std::io::{BufRead, Write};
+use std::sync::atomic::{AtomicU32, AtomicU64, Ordering};
+use std::sync::mpsc::{channel, Receiver, Sender};
+use std::sync::{Arc, Mutex};
+use std::time::{Duration, Instant};
 
-/// Returns None when `cmd` is not one of this module's sub-commands.
 pub fn dispatch(cmd: &str, a: &Args) -> Option<Result<()>> {
-    let _ = a;
     match cmd {
+        "steer-queue" => Some(steer(a)),
+        "trace-queue" => Some(stress(a)),
         _ => None,
     }
+}
+
+// ---------------------------------------------------------------------------------------------
+// the item type: ordered by priority only (equal priority = tie), named by uid
+// ---------------------------------------------------------------------------------------------
+#[derive(Debug)]
+struct Item {
+    pr: u32,
+    uid: u64,
+}
+impl PartialEq for Item {
+    fn eq(&self, o: &Self) -> bool {
+        self.pr == o.pr
+    }
+}
+impl Eq for Item {}
+impl PartialOrd for Item {
+    fn partial_cmp(&self, o: &Self) -> Option<std::cmp::Ordering> {
+        Some(self.cmp(o))
+    }
+}
+impl Ord for Item {
+    fn cmp(&self, o: &Self) -> std::cmp::Ordering {
+        self.pr.cmp(&o.pr)
+    }
+}
+type Q = MemoryBoundedQueue<Item>;
+
+// ---------------------------------------------------------------------------------------------
+// event log (sink of the ragc_verif hooks)
+// ---------------------------------------------------------------------------------------------
+static LOG: Mutex<Vec<Value>> = Mutex::new(Vec::new());
+static EVCOUNT: AtomicU64 = AtomicU64::new(0);
+static CASE: AtomicU64 = AtomicU64::new(0);
+static PERTURB: AtomicU32 = AtomicU32::new(0); // per-mille probability of a delay inside the sink
+
+thread_local! {
+    static ME: Cell<(u64, i64)> = const { Cell::new((0, -1)) };      // (case generation, thread index)
+    static CUR: Cell<(u64, u32)> = const { Cell::new((0, 0)) };      // item of the push in progress
+    static PRNG: RefCell<Option<StdRng>> = const { RefCell::new(None) };
+}
+
+fn perturb() {
+    let p = PERTURB.load(Ordering::Relaxed);
+    if p == 0 {
+        return;
+    }
+    let r = PRNG.with(|g| g.borrow_mut().as_mut().map(|g| (g.gen_range(0..1000u32), g.gen_range(1..80u64))));
+    if let Some((r, us)) = r {
+        if r < p {
+            if r % 3 == 0 {
+                std::thread::sleep(Duration::from_micros(us));
+            } else {
+                std::thread::yield_now();
+            }
+        }
+    }
+}
+
+fn log_push(v: Value) {
+    LOG.lock().unwrap().push(v);
+    EVCOUNT.fetch_add(1, Ordering::SeqCst);
+}
+
+fn install_sink() {
+    verif::install(Some(Arc::new(|e: verif::Event| {
+        let (gen, idx) = ME.with(|m| m.get());
+        if idx < 0 || gen != CASE.load(Ordering::SeqCst) {
+            return; // not a thread of the case under observation
+        }
+        let get = |k: &str| e.nums.iter().find(|(n, _)| *n == k).map(|(_, v)| *v).unwrap_or(-1);
+        let mut v = json!({"ev": e.kind, "t": idx, "seq": e.seq, "size": get("size"), "cur": get("cur"),
+                           "len": get("len"), "closed": get("closed"), "qcap": get("cap"), "q": get("q")});
+        match e.kind {
+            "admit" => {
+                let (uid, pr) = CUR.with(|c| c.get());
+                v["ticket"] = json!(get("ticket"));
+                v["uid"] = json!(uid);
+                v["pr"] = json!(pr);
+            }
+            "take" => {
+                v["ticket"] = json!(get("ticket"));
+            }
+            _ => {}
+        }
+        log_push(v);
+        perturb(); // still inside the critical section of the queue
+    })));
+}
+
+fn take_log() -> Vec<Value> {
+    std::mem::take(&mut *LOG.lock().unwrap())
+}
+
+// ---------------------------------------------------------------------------------------------
+// calls on the real queue; panics are data
+// ---------------------------------------------------------------------------------------------
+#[derive(Clone)]
+enum Cmd {
+    Push { uid: u64, sz: usize, pr: u32 },
+    TryPush { uid: u64, sz: usize, pr: u32 },
+    Pull,
+    TryPull,
+    Close,
+    /// (gated workers only) start working on another queue / case
+    Reset(Q, u64),
+}
+impl Cmd {
+    fn name(&self) -> &'static str {
+        match self {
+            Cmd::Push { .. } => "push",
+            Cmd::TryPush { .. } => "try_push",
+            Cmd::Pull => "pull",
+            Cmd::TryPull => "try_pull",
+            Cmd::Close => "close",
+            Cmd::Reset(..) => "reset",
+        }
+    }
+}
+
+/// Executes one call; returns (answer class, uid of the returned item) and logs the `ret` event.
+fn exec(q: &Q, idx: i64, cmd: &Cmd) -> (&'static str, u64) {
+    let r = util::catch(std::panic::AssertUnwindSafe(|| match cmd {
+        Cmd::Push { uid, sz, pr } => {
+            CUR.with(|c| c.set((*uid, *pr)));
+            match q.push(Item { pr: *pr, uid: *uid }, *sz) {
+                Ok(()) => ("ok", 0),
+                Err(PushError::Closed) => ("closed", 0),
+            }
+        }
+        Cmd::TryPush { uid, sz, pr } => {
+            CUR.with(|c| c.set((*uid, *pr)));
+            match q.try_push(Item { pr: *pr, uid: *uid }, *sz) {
+                Ok(()) => ("ok", 0),
+                Err(TryPushError::Closed) => ("closed", 0),
+                Err(TryPushError::WouldBlock) => ("wouldblock", 0),
+            }
+        }
+        Cmd::Pull => match q.pull() {
+            Some(it) => ("item", it.uid),
+            None => ("none", 0),
+        },
+        Cmd::TryPull => match q.try_pull() {
+            Some(it) => ("item", it.uid),
+            None => ("none", 0),
+        },
+        Cmd::Close => {
+            q.close();
+            ("unit", 0)
+        }
+        Cmd::Reset(..) => ("unit", 0),
+    }));
+    let (cls, uid, msg) = match r {
+        Ok((c, u)) => (c, u, None),
+        Err(m) => ("panic", 0, Some(m)),
+    };
+    let mut v = json!({"ev": "ret", "t": idx, "op": cmd.name(), "cls": cls, "uid": uid});
+    if let Some(m) = msg {
+        v["msg"] = json!(m);
+    }
+    log_push(v);
+    (cls, uid)
+}
+
+// ---------------------------------------------------------------------------------------------
+// kernel-level "is this thread asleep in an untimed futex wait"
+// ---------------------------------------------------------------------------------------------
+fn gettid() -> i32 {
+    unsafe { libc::syscall(libc::SYS_gettid) as i32 }
+}
+
+fn futex_blocked(tid: i32) -> bool {
+    let st = match std::fs::read_to_string(format!("/proc/self/task/{}/stat", tid)) {
+        Ok(s) => s,
+        Err(_) => return false,
+    };
+    let state = st.rsplit(')').next().unwrap_or("").trim_start().chars().next().unwrap_or('?');
+    if state != 'S' {
+        return false;
+    }
+    match std::fs::read_to_string(format!("/proc/self/task/{}/syscall", tid)) {
+        Ok(s) => {
+            let f: Vec<&str> = s.split_whitespace().collect();
+            // nr a0 a1 a2 a3(timeout) ...: futex, no timeout
+            f.len() >= 5 && f[0] == format!("{}", libc::SYS_futex) && f[4] == "0x0"
+        }
+        Err(_) => false,
+    }
+}
+
+// ---------------------------------------------------------------------------------------------
+// gated worker threads (steered schedules)
+// ---------------------------------------------------------------------------------------------
+enum Msg {
+    Tid(u64, usize, i32),               // (pool generation, worker, os thread id)
+    Done(u64, usize, &'static str, u64), // (pool generation, worker, answer class, uid)
+}
+
+static POOL: AtomicU64 = AtomicU64::new(0);
+
+struct W {
+    name: String,
+    tid: i32,
+    tx: Option<Sender<Cmd>>,
+    busy: bool,
+    last: Option<(&'static str, u64)>, // answer of the call that completed since the last comparison
+    handle: Option<std::thread::JoinHandle<()>>,
+}
+
+fn spawn_worker(idx: usize, seed: u64, res: Sender<Msg>) -> (Sender<Cmd>, std::thread::JoinHandle<()>) {
+    let (tx, rx): (Sender<Cmd>, Receiver<Cmd>) = channel();
+    let pool = POOL.load(Ordering::SeqCst);
+    let h = std::thread::spawn(move || {
+        PRNG.with(|g| *g.borrow_mut() = Some(StdRng::seed_from_u64(seed ^ ((idx as u64 + 1) << 40))));
+        let _ = res.send(Msg::Tid(pool, idx, gettid()));
+        let mut q: Q = MemoryBoundedQueue::new(0);
+        while let Ok(cmd) = rx.recv() {
+            if let Cmd::Reset(nq, gen) = cmd {
+                q = nq;
+                ME.with(|m| m.set((gen, idx as i64)));
+                continue;
+            }
+            let (cls, uid) = exec(&q, idx as i64, &cmd);
+            if res.send(Msg::Done(pool, idx, cls, uid)).is_err() {
+                break;
+            }
+        }
+    });
+    (tx, h)
+}
+
+fn drain(rx: &Receiver<Msg>, ws: &mut [W]) -> bool {
+    let mut got = false;
+    while let Ok(m) = rx.try_recv() {
+        got = true;
+        apply(m, ws);
+    }
+    got
+}
+
+fn apply(m: Msg, ws: &mut [W]) {
+    let pool = POOL.load(Ordering::SeqCst);
+    match m {
+        Msg::Tid(p, i, t) if p == pool => ws[i].tid = t,
+        Msg::Done(p, i, cls, uid) if p == pool => {
+            ws[i].busy = false;
+            ws[i].last = Some((cls, uid));
+        }
+        _ => {} // a thread of an abandoned pool
+    }
+}
+
+/// Wait until nothing can move without a new command: no worker is inside a queue call any
+/// more (all result messages arrived), or every worker sleeps in an untimed futex wait (parked
+/// on its command channel, or blocked inside the queue) while neither events nor results appear
+/// during two consecutive scans.  The bounded waits only pace the re-scan; the watchdog is a
+/// tool error, never a verdict.
+fn settle(ws: &mut [W], rx: &Receiver<Msg>, watchdog: Duration) -> Result<()> {
+    let t0 = Instant::now();
+    let mut good = 0;
+    loop {
+        drain(rx, ws);
+        if !ws.iter().any(|w| w.busy) {
+            return Ok(());
+        }
+        let c1 = EVCOUNT.load(Ordering::SeqCst);
+        // ALL workers are scanned, not only the busy ones: a worker that already delivered its
+        // result may still hold (or wait for) a lock inside the channel implementation
+        let all = ws.iter().all(|w| w.tid != 0 && futex_blocked(w.tid));
+        if all {
+            if !drain(rx, ws) && EVCOUNT.load(Ordering::SeqCst) == c1 {
+                good += 1;
+                if good >= 2 {
+                    return Ok(());
+                }
+            } else {
+                good = 0;
+            }
+            continue;
+        }
+        good = 0;
+        match rx.recv_timeout(Duration::from_micros(100)) {
+            Ok(m) => apply(m, ws),
+            Err(std::sync::mpsc::RecvTimeoutError::Timeout) => {}
+            Err(_) => bail!("workers gone"),
+        }
+        if t0.elapsed() > watchdog {
+            bail!("settle watchdog: threads neither finish nor block ({} s)", watchdog.as_secs());
+        }
+    }
+}
+
+/// Which kind of wait a busy (blocked) worker is in, from its last queue event.
+fn blocked_kind(log: &[Value], idx: usize) -> &'static str {
+    for e in log.iter().rev() {
+        if e["t"].as_i64() == Some(idx as i64) {
+            return match e["ev"].as_str().unwrap_or("") {
+                "push_wait" => "pwait",
+                "pull_wait" => "cwait",
+                _ => "running",
+            };
+        }
+    }
+    "running"
+}
+
+fn id_key(v: &Value) -> String {
+    v.to_string()
+}
+
+/// REPLAY / steered schedules: behaviours printed by MC_Queue (Hist = TRUE).
+/// --in behaviours.ndjson --out trace.ndjson [--compare 1] [--seed s]
+fn steer(a: &Args) -> Result<()> {
+    util::install_panic_hook();
+    install_sink();
+    let compare = a.num("compare", 1u32) == 1;
+    let seed: u64 = a.num("seed", 1u64);
+    let watchdog = Duration::from_secs(a.num("watchdog", 60u64));
+    PERTURB.store(0, Ordering::SeqCst);
+    let f = std::fs::File::open(a.get("in")?)?;
+    let mut out = std::io::BufWriter::new(std::fs::File::create(a.get("out")?)?);
+    let (mut nb, mut nsteps, mut skipped, mut ties, mut full, mut blocking) = (0u64, 0u64, 0u64, 0u64, 0u64, 0u64);
+    let mut fails: Vec<Value> = vec![];
+    let (rtx, rrx) = channel::<Msg>();
+    let mut ws: Vec<W> = vec![]; // pool of gated workers, reused from behaviour to behaviour
+    for line in std::io::BufReader::new(f).lines() {
+        let line = line?;
+        if line.trim().is_empty() {
+            continue;
+        }
+        let b: Value = serde_json::from_str(&line)?;
+        nb += 1;
+        let cap = b["cap"].as_u64().unwrap() as usize;
+        let names: Vec<String> = b["threads"].as_array().unwrap().iter().map(|x| x.as_str().unwrap().to_string()).collect();
+        let gen = CASE.fetch_add(1, Ordering::SeqCst) + 1;
+        take_log();
+        let q: Q = MemoryBoundedQueue::new(cap);
+        if ws.len() != names.len() {
+            for w in ws.iter_mut() {
+                w.tx = None;
+            }
+            for w in ws.iter_mut() {
+                let _ = w.handle.take().unwrap().join();
+            }
+            ws.clear();
+            POOL.fetch_add(1, Ordering::SeqCst);
+            for i in 0..names.len() {
+                let (tx, h) = spawn_worker(i, seed, rtx.clone());
+                ws.push(W { name: String::new(), tid: 0, tx: Some(tx), busy: false, last: None, handle: Some(h) });
+            }
+        }
+        for (i, n) in names.iter().enumerate() {
+            ws[i].name = n.clone();
+            ws[i].busy = false;
+            ws[i].last = None;
+            ws[i].tx.as_ref().unwrap().send(Cmd::Reset(q.clone(), gen)).map_err(|_| anyhow!("worker gone"))?;
+        }
+        let widx: HashMap<String, usize> = names.iter().enumerate().map(|(i, n)| (n.clone(), i)).collect();
+        log_push(json!({"ev": "start", "case": nb, "cap": cap, "threads": names.len()}));
+        let mut uids: HashMap<String, u64> = HashMap::new(); // model item id -> uid
+        let mut prs: HashMap<u64, u32> = HashMap::new(); // uid -> priority
+        let mut following = compare; // still comparing (false after a tie divergence)
+        let mut fail: Option<Value> = None;
+        let mut had_block = false;
+        let steps = b["steps"].as_array().unwrap();
+        for (si, st) in steps.iter().enumerate() {
+            nsteps += 1;
+            let t = widx[st["t"].as_str().unwrap()];
+            let step = st["step"].as_str().unwrap();
+            let cmd = match step {
+                "push" | "try_push" => {
+                    let k = id_key(&st["id"]);
+                    let n = uids.len() as u64 + 1;
+                    let uid = *uids.entry(k).or_insert(n);
+                    let sz = st["sz"].as_u64().unwrap() as usize;
+                    let pr = st["pr"].as_u64().unwrap() as u32;
+                    prs.insert(uid, pr);
+                    Some(if step == "push" { Cmd::Push { uid, sz, pr } } else { Cmd::TryPush { uid, sz, pr } })
+                }
+                "pull" => Some(Cmd::Pull),
+                "try_pull" => Some(Cmd::TryPull),
+                "close" => Some(Cmd::Close),
+                _ => None, // wake / spurious: the real thread does that by itself
+            };
+            if let Some(c) = cmd {
+                if ws[t].busy {
+                    skipped += 1; // the real run took another (allowed) turn: this thread is still blocked
+                    continue;
+                }
+                ws[t].busy = true;
+                ws[t].last = None;
+                ws[t].tx.as_ref().unwrap().send(c).map_err(|_| anyhow!("worker gone"))?;
+                settle(&mut ws, &rrx, watchdog)?;
+            }
+            if !st["quiet"].as_bool().unwrap_or(false) {
+                continue; // model: a wake-up is in flight, not a settled state
+            }
+            // ---- settled: record the observation, compare with the model's post-state --------
+            let blocked: Vec<usize> = (0..ws.len()).filter(|&i| ws[i].busy).collect();
+            if !blocked.is_empty() {
+                had_block = true;
+            }
+            let (alen, acur, aclosed) = (q.len(), q.current_size(), q.is_closed());
+            log_push(json!({"ev": "quiescent", "blocked": blocked, "api_len": alen, "api_cur": acur, "api_closed": aclosed as u8}));
+            if !following || fail.is_some() {
+                continue;
+            }
+            let log = LOG.lock().unwrap().clone();
+            // bag of queued items from the hook events (ticket -> uid)
+            let mut tick: BTreeMap<i64, u64> = BTreeMap::new();
+            for e in log.iter() {
+                match e["ev"].as_str().unwrap_or("") {
+                    "admit" => {
+                        tick.insert(e["ticket"].as_i64().unwrap(), e["uid"].as_u64().unwrap());
+                    }
+                    "take" => {
+                        tick.remove(&e["ticket"].as_i64().unwrap());
+                    }
+                    _ => {}
+                }
+            }
+            let real_bag: BTreeSet<u64> = tick.values().cloned().collect();
+            let model_bag: BTreeSet<u64> = st["bag"].as_array().unwrap().iter().map(|x| *uids.get(&id_key(x)).unwrap_or(&0)).collect();
+            let mut bad: Vec<String> = vec![];
+            let mut tie = false;
+            // answers of the calls completed in this window (model: steps since the previous settled state)
+            let mut j = si;
+            let mut model_ans: HashMap<usize, (String, u64)> = HashMap::new();
+            loop {
+                let s = &steps[j];
+                let tt = widx[s["t"].as_str().unwrap()];
+                let res = s["res"].as_str().unwrap();
+                if res != "wait" && s["step"].as_str().unwrap() != "spurious" {
+                    let cls = match res {
+                        "admit" => "ok",
+                        "refuse" => "closed",
+                        "wouldblock" => "wouldblock",
+                        "take" => "item",
+                        "eos" | "empty" => "none",
+                        "close" => "unit",
+                        x => bail!("unknown model answer {}", x),
+                    };
+                    let rid = if res == "take" { *uids.get(&id_key(&s["rid"])).unwrap_or(&0) } else { 0 };
+                    model_ans.insert(tt, (cls.to_string(), rid));
+                }
+                if j == 0 || steps[j - 1]["quiet"].as_bool().unwrap_or(false) {
+                    break;
+                }
+                j -= 1;
+            }
+            for (i, w) in ws.iter().enumerate() {
+                let mpc = st["pcs"][&w.name].as_str().unwrap_or("?");
+                let rpc = if w.busy { blocked_kind(&log, i) } else { "idle" };
+                if mpc != rpc {
+                    bad.push(format!("thread {}: model {} real {}", w.name, mpc, rpc));
+                }
+                match (model_ans.get(&i), &w.last) {
+                    (Some((mc, mu)), Some((rc, ru))) => {
+                        if mc != rc {
+                            bad.push(format!("answer of {}: model {} real {}", w.name, mc, rc));
+                        } else if mc == "item" && mu != ru {
+                            // another item than on this branch of the model: fine if it has the same
+                            // priority (a tie - the sibling branch of the model), otherwise a mismatch
+                            if prs.get(mu).is_some() && prs.get(mu) == prs.get(ru) {
+                                tie = true;
+                            } else {
+                                bad.push(format!("answer of {}: model item {} (priority {:?}) real item {} (priority {:?})",
+                                                 w.name, mu, prs.get(mu), ru, prs.get(ru)));
+                            }
+                        }
+                    }
+                    (Some((mc, _)), None) => {
+                        if !w.busy {
+                            bad.push(format!("answer of {}: model {} real none recorded", w.name, mc));
+                        }
+                    }
+                    (None, Some((rc, _))) => bad.push(format!("answer of {}: model has none, real {}", w.name, rc)),
+                    (None, None) => {}
+                }
+            }
+            if tie && bad.is_empty() {
+                // this behaviour's continuation is another branch of the model (TLC judges the recorded
+                // execution as a whole)
+                following = false;
+                ties += 1;
+                continue;
+            }
+            if alen as u64 != st["len"].as_u64().unwrap() {
+                bad.push(format!("len: model {} real {}", st["len"], alen));
+            }
+            if acur as u64 != st["cur"].as_u64().unwrap() {
+                bad.push(format!("current_size: model {} real {}", st["cur"], acur));
+            }
+            if aclosed != st["closed"].as_bool().unwrap() {
+                bad.push(format!("closed: model {} real {}", st["closed"], aclosed));
+            }
+            if real_bag != model_bag {
+                bad.push(format!("bag: model {:?} real {:?}", model_bag, real_bag));
+            }
+            if !bad.is_empty() {
+                fail = Some(json!({"step": si, "diff": bad, "model": st}));
+            }
+            for w in ws.iter_mut() {
+                w.last = None;
+            }
+        }
+        // ---- end of behaviour: close (if the behaviour did not) so that blocked threads leave ----
+        if !q.is_closed() {
+            // issued by the harness itself (thread index = number of workers)
+            ME.with(|m| m.set((gen, ws.len() as i64)));
+            exec(&q, ws.len() as i64, &Cmd::Close);
+            ME.with(|m| m.set((0, -1)));
+            settle(&mut ws, &rrx, watchdog)?;
+        }
+        let blocked: Vec<usize> = (0..ws.len()).filter(|&i| ws[i].busy).collect();
+        let stuck = !blocked.is_empty();
+        log_push(json!({"ev": if stuck { "quiescent" } else { "end" }, "blocked": blocked,
+                        "api_len": q.len(), "api_cur": q.current_size(), "api_closed": q.is_closed() as u8}));
+        if stuck {
+            // the blocked threads are abandoned (reported by the quiescent record); new pool next time
+            for w in ws.iter_mut() {
+                w.tx = None;
+                w.handle = None;
+            }
+            ws.clear();
+        }
+        if following && fail.is_none() {
+            full += 1;
+        }
+        if had_block {
+            blocking += 1;
+        }
+        if let Some(mut f) = fail {
+            if fails.len() < 20 {
+                f["behaviour"] = b.clone();
+                fails.push(f);
+            }
+        }
+        for e in take_log() {
+            writeln!(out, "{}", e)?;
+        }
+    }
+    out.flush()?;
+    println!("{}", json!({"behaviours": nb, "steps": nsteps, "fails": fails, "followed_to_end": full,
+                          "tie_branch_left": ties, "steps_skipped": skipped, "behaviours_with_blocking": blocking}));
+    Ok(())
+}
+
+// ---------------------------------------------------------------------------------------------
+// free-running stress with perturbation (TRACE)
+// ---------------------------------------------------------------------------------------------
+/// --out trace.ndjson --cases n --seed s --caps 2,5,64 --maxthreads 16 --items 12 --perturb 150
+fn stress(a: &Args) -> Result<()> {
+    util::install_panic_hook();
+    install_sink();
+    let seed: u64 = a.num("seed", 1u64);
+    let cases: u64 = a.num("cases", 10u64);
+    let maxthreads: usize = a.num("maxthreads", 16usize);
+    let items: usize = a.num("items", 12usize);
+    let watchdog = Duration::from_secs(a.num("watchdog", 120u64));
+    let caps: Vec<usize> = a.opt("caps").unwrap_or("2,5,64").split(',').filter_map(|x| x.parse().ok()).collect();
+    PERTURB.store(a.num("perturb", 150u32), Ordering::SeqCst);
+    let mut out = std::io::BufWriter::new(std::fs::File::create(a.get("out")?)?);
+    let mut rng = util::rng(seed.wrapping_mul(0x9E3779B97F4A7C15) ^ 0xC06);
+    let mut summary: Vec<Value> = vec![];
+    for case in 0..cases {
+        let cap = caps[(case as usize) % caps.len()];
+        let total = rng.gen_range(2..=maxthreads.max(2));
+        let np = rng.gen_range(1..total);
+        let nc = total - np;
+        let early_close = rng.gen_bool(0.3);
+        let oversize = rng.gen_bool(0.5);
+        let nprio: u32 = rng.gen_range(1..=4);
+        let leave_early = rng.gen_bool(0.2); // some consumers stop after a few items
+        let gen = CASE.fetch_add(1, Ordering::SeqCst) + 1;
+        take_log();
+        let q: Q = MemoryBoundedQueue::new(cap);
+        let (rtx, rrx) = channel::<Msg>();
+        ME.with(|m| m.set((gen, 0)));
+        PRNG.with(|g| *g.borrow_mut() = Some(StdRng::seed_from_u64(seed ^ case)));
+        log_push(json!({"ev": "start", "case": case, "cap": cap, "threads": total + 1, "producers": np, "consumers": nc,
+                        "early_close": early_close}));
+        let mut uid = 0u64;
+        let mut handles = vec![];
+        let mut holds: Vec<Sender<()>> = vec![];
+        let mut tids: Vec<i32> = vec![0; total + 1];
+        let mut done: Vec<bool> = vec![false; total + 1];
+        done[0] = true;
+        for i in 1..=total {
+            let is_prod = i <= np;
+            let tseed: u64 = rng.gen();
+            // producer script
+            let mut script: Vec<Cmd> = vec![];
+            if is_prod {
+                for _ in 0..rng.gen_range(1..=items) {
+                    uid += 1;
+                    let r: f64 = rng.gen();
+                    let sz = if r < 0.12 { 0 } else if oversize && r > 0.9 { cap + rng.gen_range(1..3usize) } else { rng.gen_range(1..=cap) };
+                    let pr = rng.gen_range(0..nprio);
+                    script.push(if rng.gen_bool(0.7) { Cmd::Push { uid, sz, pr } } else { Cmd::TryPush { uid, sz, pr } });
+                }
+            }
+            let quota: usize = if !is_prod && leave_early && rng.gen_bool(0.5) { rng.gen_range(1..6) } else { usize::MAX };
+            let q2 = q.clone();
+            let rtx2 = rtx.clone();
+            let (hold_tx, hold_rx) = channel::<()>();
+            holds.push(hold_tx);
+            handles.push(std::thread::spawn(move || {
+                ME.with(|m| m.set((gen, i as i64)));
+                let mut g = StdRng::seed_from_u64(tseed);
+                PRNG.with(|p| *p.borrow_mut() = Some(StdRng::seed_from_u64(tseed ^ 0x55)));
+                let _ = rtx2.send(Msg::Tid(0, i, gettid()));
+                if is_prod {
+                    for c in script.iter() {
+                        if g.gen_bool(0.3) {
+                            std::thread::yield_now();
+                        }
+                        let (cls, _) = exec(&q2, i as i64, c);
+                        if cls == "closed" || cls == "panic" {
+                            break;
+                        }
+                    }
+                } else {
+                    let mut got = 0usize;
+                    let mut tries = 0usize;
+                    loop {
+                        if g.gen_bool(0.3) {
+                            std::thread::yield_now();
+                        }
+                        let c = if tries < 20 && g.gen_bool(0.25) { tries += 1; Cmd::TryPull } else { Cmd::Pull };
+                        let (cls, _) = exec(&q2, i as i64, &c);
+                        match (cls, &c) {
+                            ("item", _) => {
+                                got += 1;
+                                if got >= quota {
+                                    break;
+                                }
+                            }
+                            ("none", Cmd::Pull) => break, // end-of-stream
+                            ("none", _) => {}
+                            _ => break,
+                        }
+                    }
+                }
+                let _ = rtx2.send(Msg::Done(0, i, "unit", 0));
+                // stay parked (untimed futex wait) until the case is over, so that a finished
+                // thread and a blocked thread look the same to the quiescence scan
+                let _ = hold_rx.recv();
+            }));
+        }
+        // main thread: close after the producers are done, or early after some events
+        let close_at: u64 = EVCOUNT.load(Ordering::SeqCst) + rng.gen_range(1..(4 * items as u64 + 2));
+        let t0 = Instant::now();
+        let mut closed = false;
+        let mut stuck: Option<Vec<usize>> = None;
+        let mut good = 0;
+        let absorb = |m: Msg, tids: &mut Vec<i32>, done: &mut Vec<bool>| match m {
+            Msg::Tid(_, i, t) => tids[i] = t,
+            Msg::Done(_, i, _, _) => done[i] = true,
+        };
+        loop {
+            while let Ok(m) = rrx.try_recv() {
+                absorb(m, &mut tids, &mut done);
+            }
+            if done.iter().all(|d| *d) {
+                break;
+            }
+            let producers_done = (1..=np).all(|i| done[i]);
+            if !closed && (producers_done || (early_close && EVCOUNT.load(Ordering::SeqCst) >= close_at)) {
+                exec(&q, 0, &Cmd::Close);
+                closed = true;
+                continue;
+            }
+            // quiescence: EVERY thread (finished ones are parked) sleeps in an untimed futex wait
+            // and nothing moves
+            let c1 = EVCOUNT.load(Ordering::SeqCst);
+            let all = (1..=total).all(|i| tids[i] != 0 && futex_blocked(tids[i]));
+            let mut moved = false;
+            while let Ok(m) = rrx.try_recv() {
+                absorb(m, &mut tids, &mut done);
+                moved = true;
+            }
+            if all && !moved && EVCOUNT.load(Ordering::SeqCst) == c1 {
+                good += 1;
+                if good >= 3 {
+                    if !closed {
+                        // every producer is blocked or finished and every consumer is blocked or
+                        // gone: not an end state yet - record it, close, and look again
+                        let b: Vec<usize> = (1..=total).filter(|&i| !done[i]).collect();
+                        log_push(json!({"ev": "quiescent", "blocked": b, "api_len": q.len(), "api_cur": q.current_size(),
+                                        "api_closed": q.is_closed() as u8}));
+                        exec(&q, 0, &Cmd::Close);
+                        closed = true;
+                        good = 0;
+                        continue;
+                    }
+                    stuck = Some((1..=total).filter(|&i| !done[i]).collect());
+                    break;
+                }
+            } else {
+                good = 0;
+                if let Ok(m) = rrx.recv_timeout(Duration::from_micros(200)) {
+                    absorb(m, &mut tids, &mut done);
+                }
+            }
+            if t0.elapsed() > watchdog {
+                bail!("stress watchdog: case {} neither finishes nor blocks", case);
+            }
+        }
+        drop(holds); // finished threads leave
+        match &stuck {
+            Some(b) => log_push(json!({"ev": "quiescent", "blocked": b, "api_len": q.len(), "api_cur": q.current_size(),
+                                       "api_closed": q.is_closed() as u8})),
+            None => {
+                for h in handles {
+                    let _ = h.join();
+                }
+                log_push(json!({"ev": "end", "blocked": [], "api_len": q.len(), "api_cur": q.current_size(),
+                                "api_closed": q.is_closed() as u8}));
+            }
+        }
+        ME.with(|m| m.set((0, -1)));
+        let log = take_log();
+        let n_wait = log.iter().filter(|e| matches!(e["ev"].as_str(), Some("push_wait") | Some("pull_wait"))).count();
+        let n_take = log.iter().filter(|e| e["ev"] == "take").count();
+        summary.push(json!({"case": case, "cap": cap, "threads": total, "events": log.len(), "waits": n_wait, "takes": n_take,
+                            "stuck": stuck.is_some()}));
+        for e in log {
+            writeln!(out, "{}", e)?;
+        }
+    }
+    out.flush()?;
+    println!("{}", json!({"cases": cases, "summary": summary}));
+    Ok(())
 }
